@@ -69,7 +69,7 @@ def gen_case(rng, tag, forced_roles=None):
             evs.append((rng.choice([3, 6, 7]), 0 if r == "pair0" else 1, 0.8))
     p = tissue.params(dt=1e-7, damping=5e-10, T=1.0, S=1.0, lmin=7.5e-7, cut_adh=5e-7, cut_rep=5e-7, swap=0)
     line = tissue.fmt_tissue(p, cts, cells) + " RUN %d 1 %d 0 %s %d %s" % (niter, rng.randrange(10 ** 6), tag, len(evs), " ".join("%d %d %s" % (a, b, hx(c)) for a, b, c in evs))
-    return dict(line=line, roles=roles, nft=nft, evs=evs, niter=niter)
+    return dict(line=line, roles=roles, nft=nft, evs=evs, niter=niter, incoming_ids=rng.random() < 0.5)
 
 
 def parse_out(out):
@@ -116,7 +116,12 @@ def run(ck):
     from concurrent.futures import ThreadPoolExecutor
     def one(c):
         try:
-            p = vlib.run([impl], input=c["line"] + "\n", timeout=900, env={"OMP_NUM_THREADS": "1"})
+            # every other history: the cells arrive at the solver with ids that are not their list positions (as the survivors
+            # of an earlier run do); the constructor renumbers them
+            env = {"OMP_NUM_THREADS": "1"}
+            if c.get("incoming_ids"):
+                env["VERIF_INCOMING_IDS"] = "1"
+            p = vlib.run([impl], input=c["line"] + "\n", timeout=900, env=env)
             return p.returncode, p.stdout, p.stderr[-800:]
         except Exception as e:
             return -999, "", str(e)
